@@ -8,6 +8,67 @@ use embedded_cli::cli::{CliBuilder, CliHandle};
 use embedded_cli::command::RawCommand;
 use embedded_cli::service::{CommandProcessor, ProcessError};
 
+/// command sets the sessions are run with: the raw one (no names) and a derived one with ASCII and non-ASCII names,
+/// non-adjacent names sharing a prefix, and names sharing UTF-8 lead bytes
+pub trait Names {
+    const NAMES: &'static [&'static str];
+}
+impl Names for RawCommand<'static> {
+    const NAMES: &'static [&'static str] = &[];
+}
+#[derive(embedded_cli::Command, Debug)]
+pub enum Derived {
+    #[command(name = "öffne")]
+    Oeffne,
+    Get,
+    Set,
+    GetLed,
+    #[command(name = "старт")]
+    Start,
+    #[command(name = "стоп")]
+    Stop,
+    Exit,
+}
+impl Names for Derived {
+    const NAMES: &'static [&'static str] = &["öffne", "get", "set", "get-led", "старт", "стоп", "exit"];
+}
+
+/// transcription of specs/80_autocomplete_spec.rs merge_step, folded over the candidates
+#[cfg(feature = "autocomplete")]
+fn merge_all(cands: &[String], room: usize) -> (Option<String>, bool) {
+    let mut auto: Option<String> = None;
+    let mut partial = false;
+    for c in cands {
+        if c.is_empty() || room == 0 {
+            partial = partial || auto.is_some() || (room == 0 && !c.is_empty());
+            auto = Some(String::new());
+            continue;
+        }
+        let len = match &auto {
+            Some(cur) => {
+                let mut n = 0;
+                for (x, y) in c.chars().zip(cur.chars()) {
+                    if x != y {
+                        break;
+                    }
+                    n += x.len_utf8();
+                }
+                n
+            }
+            None => {
+                let mut n = c.len().min(room);
+                while !c.is_char_boundary(n) {
+                    n -= 1;
+                }
+                n
+            }
+        };
+        partial = partial || len < c.len() || auto.is_some();
+        auto = Some(c[..len].to_string());
+    }
+    (auto, partial)
+}
+
 #[derive(Clone, Debug, PartialEq)]
 pub enum SinkEv {
     W(Vec<u8>),
@@ -183,7 +244,7 @@ impl Model {
 const KEYS: &[&[u8]] = &[
     b"a", b"b", b" ", b"-", b"h", b"\"", b"\\", "é".as_bytes(), "€".as_bytes(), "😀".as_bytes(), b"\x08", b"\x09", b"\r", b"\n", b"\r\n", b"\x1b[A",
     b"\x1b[B", b"\x1b[C", b"\x1b[D", b"\x1b[D", b"\x1b[1;5C", b"\x1b[3~", b"\x00", b"\x1b", b"\x7f", b"\xc3", b"\xa9", b"\xff", b"help", b"he", b"--help",
-    b"-h", b"--", b"cmd", b"\"\"",
+    b"-h", b"--", b"cmd", b"\"\"", b"g", b"ge", b"get-", b"s", b"e", "ö".as_bytes(), "ст".as_bytes(), "с".as_bytes(), b"\x09", b"\x09",
 ];
 
 #[derive(Clone, Debug)]
@@ -215,14 +276,16 @@ fn want(only: &str, p: &str) -> bool {
 
 pub fn run(r: &mut Rng, iters: usize, only: &str) -> Option<Cex> {
     for it in 0..iters.max(3000) {
-        if let Some(c) = one_session(r, it, only) {
+        let c = if it % 2 == 0 { one_session::<RawCommand<'static>>(r, it, only) } else { one_session::<Derived>(r, it, only) };
+        if let Some(mut c) = c {
+            c.input = format!("commands={} {}", if it % 2 == 0 { "raw" } else { "derived[öffne,get,set,get-led,старт,стоп,exit]" }, c.input);
             return Some(c);
         }
     }
     None
 }
 
-fn one_session(r: &mut Rng, it: usize, only: &str) -> Option<Cex> {
+fn one_session<C: Names + embedded_cli::service::Autocomplete + embedded_cli::service::Help>(r: &mut Rng, it: usize, only: &str) -> Option<Cex> {
     let cap = if it % 4 == 0 { r.below(8) } else { 8 + r.below(24) };
     let hcap = if it % 5 == 0 { r.below(6) } else { r.below(40) };
     let inject = want(only, "C14") && (only == "C14" || it % 3 == 0);
@@ -414,17 +477,19 @@ fn one_session(r: &mut Rng, it: usize, only: &str) -> Option<Cex> {
                     let off: usize = m.line[..m.cur].iter().map(|c| c.len_utf8()).sum();
                     let req = if m.cur < m.line.len() { let right = &text[off..]; &text[..text.len() - (right.len() - right.trim_end_matches(' ').len())] } else { &text[..] };
                     let w = req.trim_start_matches(' ');
-                    if !w.is_empty() && !w.contains(' ') && "help".starts_with(w) {
-                        // the only name known to RawCommand is the built-in `help`: one candidate, kept as far as it fits
-                        let cont = &"help"[w.len()..];
+                    if !w.is_empty() && !w.contains(' ') {
+                        // continuations of the names of the command set, then of the built-in `help`, that start with w
+                        let cands: Vec<String> =
+                            C::NAMES.iter().chain(["help"].iter()).filter(|n| n.starts_with(w)).map(|n| n[w.len()..].to_string()).collect();
                         let room = m.cap - req.len();
-                        let take = cont.len().min(room);
-                        let mut nl = req.to_string() + &cont[..take];
-                        if take == cont.len() && nl.len() < m.cap {
-                            nl.push(' ');
+                        if let (Some(x), partial) = merge_all(&cands, room) {
+                            let mut nl = req.to_string() + &x;
+                            if !partial && nl.len() < m.cap {
+                                nl.push(' ');
+                            }
+                            m.line = nl.chars().collect();
+                            m.cur = m.line.len();
                         }
-                        m.line = nl.chars().collect();
-                        m.cur = m.line.len();
                     }
                 }
             }
@@ -440,7 +505,7 @@ fn one_session(r: &mut Rng, it: usize, only: &str) -> Option<Cex> {
         }
         let after = (m.text(), m.cur);
         // ---- real step
-        let res = cli.process_byte::<RawCommand<'static>, _>(b, &mut handler);
+        let res = cli.process_byte::<C, _>(b, &mut handler);
         let st = sink.0.borrow();
         let delta: Vec<SinkEv> = st.evs[n_evs_before..].to_vec();
         let failed_now = st.failed > failed_before;
